@@ -266,6 +266,17 @@ def check_body(program, rep):
 
     rules_iter = 'self.rules'
     rule0 = loopvar_name(rules_iter, 0)
+    # the aliases under which os.path and glob are imported
+    pt = gl = None
+    for k, v in f.module.imports.items():
+        if v == ('module', 'os.path'):
+            pt = k
+        if v == ('module', 'glob'):
+            gl = k
+    if pt is None or gl is None:
+        rep.inconclusive('C16.body', site, 'imports',
+                         'os.path / glob are not imported as modules here')
+        return
     for ex in exits:
         tr = ex.state.trace
         conds = [(e.sym.text, e.extra, e) for e in tr if e.kind == 'cond']
@@ -276,22 +287,22 @@ def check_body(program, rep):
                 rootv = 'self.root' if v else 'root'
         if rootv is None:
             continue
-        dirp = f'pt.join({rootv}, {rule0}.directory_path)'
+        dirp = f'{pt}.join({rootv}, {rule0}.directory_path)'
         # --- the rule directory
-        ex_c = [t for t in cd if t.startswith('pt.exists(')]
-        if ex_c and ex_c[0] != f'pt.exists({dirp})':
+        ex_c = [t for t in cd if t.startswith(f'{pt}.exists(')]
+        if ex_c and ex_c[0] != f'{pt}.exists({dirp})':
             flag('body', [e for t, v, e in conds if t == ex_c[0]][0].node,
                  f'the existence test is {ex_c[0]}, not on join(root, '
                  'rule.directory_path): a rule path that exists but is not a '
                  'directory is skipped silently instead of being rejected')
-        if cd.get(f'pt.exists({dirp})') is False:
+        if cd.get(f'{pt}.exists({dirp})') is False:
             cnt['skip'] += 1
             if any(e.kind == 'for' and 'iglob' in e.sym.text for e in tr) \
                     or ex.kind == 'raise':
                 flag('body', f.node, 'a missing rule directory is not '
                      'silently skipped')
             continue
-        if cd.get(f'pt.isdir({dirp})') is False:
+        if cd.get(f'{pt}.isdir({dirp})') is False:
             cnt['valueerror'] += 1
             if ex.kind != 'raise' or (ex.payload or '') != 'ValueError':
                 flag('body', ex.node or f.node, 'a rule path that exists but '
@@ -304,7 +315,7 @@ def check_body(program, rep):
         if len(globs) != 1:
             continue
         g = globs[0]
-        want_g = f"glob.iglob(pt.join({dirp}, '**'), recursive=True)"
+        want_g = f"{gl}.iglob({pt}.join({dirp}, '**'), recursive=True)"
         if g.sym.text != want_g:
             flag('body', g.node.iter, f'files are enumerated with '
                  f'{g.sym.text}; expected {want_g} (every file at any depth '
@@ -313,10 +324,10 @@ def check_body(program, rep):
         path = loopvar_name(want_g, 0)
         # --- extension filter
         has_ext = cd.get(f'len({rule0}.file_exts)')
-        ext_in = cd.get(f'pt.splitext({path})[1] in {rule0}.file_exts')
+        ext_in = cd.get(f'{pt}.splitext({path})[1] in {rule0}.file_exts')
         other_filter = [t for t in cd if 'file_exts' in t and t not in (
             f'len({rule0}.file_exts)', f'{rule0}.file_exts',
-            f'pt.splitext({path})[1] in {rule0}.file_exts')]
+            f'{pt}.splitext({path})[1] in {rule0}.file_exts')]
         if other_filter:
             flag('body', [e for t, v, e in conds if t == other_filter[0]][
                 0].node, f'the extension filter tests "{other_filter[0]}": '
@@ -338,14 +349,14 @@ def check_body(program, rep):
                 flag('body', (stores or insts)[0].node, 'a file whose '
                      'extension the rule does not accept is stored')
             continue
-        isfile = cd.get(f'pt.isfile({path})')
-        isdir = cd.get(f'pt.isdir({path})')
+        isfile = cd.get(f'{pt}.isfile({path})')
+        isdir = cd.get(f'{pt}.isdir({path})')
         trim = cd.get('trim_extensions')
         if trim is None:
             trim = cd.get('self.trim_extensions')
-        rel = (f'pt.normpath(pt.relpath({path}, {rootv})).replace(pt.sep, '
-               'ResourceMap.split_char)')
-        key = f'pt.splitext({rel})[0]' if (trim is True and isfile is True) \
+        rel = (f'{pt}.normpath({pt}.relpath({path}, {rootv})).replace('
+               f'{pt}.sep, ResourceMap.split_char)')
+        key = f'{pt}.splitext({rel})[0]' if (trim is True and isfile is True) \
             else rel
         if isdir is True and isfile is True:
             continue        # infeasible valuation
